@@ -1,5 +1,5 @@
 from vcommon import Suite
-from upload_common import rewrite_upload_imports
+from upload_common import rewrite_upload_imports, rewrite_upload_fault
 
 SPEC = {
     "id": "C07",
@@ -14,7 +14,8 @@ SPEC = {
                    "library (1-3 program builds x 1-3 weeks; active and expired; without counters; truncated, "
                    "damaged, random and empty files; same-week files with different begins; in 55 % of the scenarios an "
                    "IDENTITY GROUP: 2-4 files of one report week whose program identities differ from a base identity "
-                   "in exactly ONE of the five fields Program / Version / GoVersion (set through the library's build "
+                   "in exactly ONE of the five fields Program (another last path element, or the same one under another "
+                   "directory: count-file names that differ in the date only) / Version / GoVersion (set through the library's build "
                    "info) / GOOS / GOARCH (same-length rewrite of the metadata header of the library-written file, "
                    "approved in the upload config) or are equal to it (to be summed), with distinct counter values "
                    "(10 j + r) and stack counters (names with a newline, 100 j + r; approved by their first line); "
@@ -35,6 +36,18 @@ SPEC = {
                    "local report written by a run = the grouping of the week's folded count files by the FULL "
                    "five-field identity, each value the sum over exactly that group's files (class wrong_report). "
                    "distinct = distinct case lines, all non-trivial"),
+        # the deletion clause under failed report writes: the fault suite of C05 (uploader half), same harness
+        # mode, runner and oracles; PROP classes deleted-without-report, counts-lost, counts-duplicated,
+        # active-file-touched are C07's clauses observed on a run with injected faults
+        Suite(name="fault-upload", harness="vh_upload", runner="uploadf",
+              model_deps=["theories/Model/Uploader.vo", "theories/Model/UploaderFault.vo"],
+              quick_n=1000, thorough_n=6000, rewrite=rewrite_upload_fault, tags="verif", extra_args=["c05"],
+              rule="the suite fault-upload of C05 (see checks/C05.py for the generation rule): one real upload.Run per "
+                   "case on a generated directory under a fault plan (every single call index x error kind, short "
+                   "writes, Post failures); for C07 its oracles check the deletion clause when a report write FAILS: "
+                   "a count file is gone only if a report for its week exists (deleted-without-report), its counts are "
+                   "in a completely written local report (counts-lost), once (counts-duplicated), and active / "
+                   "unparseable files are untouched (active-file-touched). distinct = distinct case lines"),
     ],
     "technique": "Coq inductive invariants over all interleavings of any number of uploader runs (transition system at "
                  "file-system/HTTP-call granularity, run histories for the deletion clause, a phase invariant for the "
@@ -81,7 +94,9 @@ SPEC = {
         "count files carry UTC end times (the week string is the UTC date of the end instant)",
         "upload config: sample rate 0 and rate 1 per counter in the suite (the random X never gates); the X of a report stands for its author",
         "time.Time.Format/Parse behave as Lib/Calendar models them (C09)",
-        "no file-system faults other than not-exist / exists",
+        "no file-system faults other than not-exist / exists in the theorems of Props/C07.v; the deletion clause under "
+        "injected faults is C05's (C05_fault_delete_only_after_report, C05_fault_keeps_or_drops) and is sampled here by the "
+        "second suite",
     ],
     "trusted_base": [],
     "own_objects": ["theories/Props/C07.vo", "theories/Proofs/UploaderSeq.vo", "theories/Proofs/UploaderEver.vo",
